@@ -437,14 +437,20 @@ def check_input_forms(args):
             got = _as_bytes_canon(r[1])
             if got[0] == "ok" and got[1] != want[1]:
                 return "%s(b) with b a %s object is not %s() followed by unpack(b): %s instead of %s" % (cls, form, cls, got[1][:160], want[1][:160])
-    # pack with bytearray-valued fields
-    if cg.can_pack:
-        y = a.ctor(*po)
-        guarded(lambda: a.unpack(y, b, *ua))
+    # pack with bytearray-valued fields: on the decoded object, and on the object as the caller assembled it (`sets`:
+    # a decoded Chapter 11 payload already holds its filler, an assigned one of 5 bytes does not)
+    for how in (("decoded",) + (("assigned",) if args.get("sets") else ())) if cg.can_pack else ():
+        def mk():
+            if how == "decoded":
+                o = a.ctor(*po)
+                guarded(lambda: a.unpack(o, b, *ua))
+                return o
+            o, _, _ = run_ops_impl(a, po, list(args["sets"]))
+            return o
+        y = mk()
         pa = [pyval(parse_val(v)) for v in cg.pack_args]
         p0 = guarded(lambda: a.pack(y, *pa))
-        z = a.ctor(*po)
-        guarded(lambda: a.unpack(z, b, *ua))
+        z = mk()
         if p0[0] == "ok" and _to_bytearray_fields(z):
             before = _as_bytes_canon(z)
             p1 = guarded(lambda: a.pack(z, *pa))
@@ -453,7 +459,7 @@ def check_input_forms(args):
             if p1[0] == "ok" and bytes(p1[1]) != bytes(p0[1]):
                 return "%s.pack with bytearray payload fields emits other bytes than with bytes fields" % cls
             if p1[0] == "ok" and p2[0] == "ok" and bytes(p2[1]) != bytes(p1[1]):
-                return "%s.pack twice on an object whose payload fields are bytearrays: second call emits %d bytes, first %d (a field grew in place)" % (
+                return "%s.pack twice on an object whose payload fields are bytearrays: the second call emits other bytes than the first (%d and %d bytes: a field was changed in place)" % (
                     cls, len(p2[1]), len(p1[1]))
             yb = _as_bytes_canon(y)
             if p1[0] == "ok" and mid[0] == "ok" and yb[0] == "ok" and mid[1] != yb[1]:
@@ -470,10 +476,11 @@ def oracle_input_forms(ctx, classes=None):
         bad = False
         for opts in cg.opts[:3]:
             for j in range(ctx.scale(5, 60)):
-                b = _valid_bytes(cg, opts, gen.sets(cg.valid(ctx.rng)))
+                sets = gen.sets(cg.valid(ctx.rng))
+                b = _valid_bytes(cg, opts, sets)
                 if b is None:
                     continue
-                args = {"cls": cg.cls, "opts": list(opts), "buf": b.hex()}
+                args = {"cls": cg.cls, "opts": list(opts), "buf": b.hex(), "sets": sets}
                 n += 1
                 try:
                     w = check_input_forms(args)
